@@ -234,7 +234,16 @@ Record rcase := mkRCase {
   rc_closed : bool;         (* channel closed within 5 s of the cancel *)
   rc_unknown : nat;         (* update events whose id is outside the universe *)
   rc_marks : list nat;      (* number of events received when the i-th step after the sync began *)
-  rc_selfclosed : bool      (* the channel closed BEFORE the harness cancelled the context *)
+  rc_selfclosed : bool;     (* the channel closed BEFORE the harness cancelled the context *)
+  (* The delayed re-check of an unschedulable Pod (taskManager, 15 s
+     status.ScheduleWindow) is NOT part of Reporter.v: what the library computes
+     for such a pod depends on the wall clock (creationTimestamp vs time.Now),
+     while the model's premise is that the status is a function of the version.
+     It is checked by the monitor only: [rc_tick] = number of events received
+     when the script began to wait out the window (= all events if it never
+     did), [rc_late] = the statuses the re-check must report after that, per id. *)
+  rc_tick : nat;
+  rc_late : list (oid * list status)
 }.
 
 Definition omem (id : oid) (l : list oid) : bool := existsb (oid_eqb id) l.
@@ -250,12 +259,20 @@ Definition case_ids (c : rcase) : list oid :=
   odedup (c_watched (rc_cfg c) ++ map fst (rc_pre c) ++ flat_map step_ids (rc_steps c)
           ++ flat_map event_ids (rc_events c)).
 
+Fixpoint late_for (id : oid) (l : list (oid * list status)) : list status :=
+  match l with
+  | [] => []
+  | (k, ss) :: t => if oid_eqb k id then ss else late_for id t
+  end.
+
+(* the model is compared with what was observed before the timed wait *)
 Definition reporter_agree (c : rcase) : bool :=
   let st := Reporter.run (rc_cfg c) (rc_pre c) (rc_steps c) in
-  forallb (fun id => list_eqb status_eqb (statuses_for id (r_events st)) (statuses_for id (rc_events c)))
+  let evs := firstn (rc_tick c) (rc_events c) in
+  forallb (fun id => list_eqb status_eqb (statuses_for id (r_events st)) (statuses_for id evs))
           (case_ids c) &&
-  Nat.eqb (count_syncs (r_events st)) (count_syncs (rc_events c)) &&
-  Nat.eqb (count_errors (r_events st)) (count_errors (rc_events c)).
+  Nat.eqb (count_syncs (r_events st)) (count_syncs evs) &&
+  Nat.eqb (count_errors (r_events st)) (count_errors evs).
 
 (* --- monitor: written from the property, not from the reporter model ----- *)
 Definition has_fail (steps : list rstep) : bool :=
@@ -405,7 +422,14 @@ Definition reporter_monitor (c : rcase) : bool :=
     mon_stopped cfg evs [] (drop_to_sync (rc_steps c)) (rc_marks c) &&
     (* one event per version, the last one being the final state *)
     forallb (fun id => negb (steady c id) ||
-                       list_eqb status_eqb (statuses_for id evs) (expected_statuses c id))
-            (c_watched cfg).
+                       list_eqb status_eqb (statuses_for id evs)
+                                (expected_statuses c id ++ late_for id (rc_late c)))
+            (c_watched cfg) &&
+    (* after the grace window of an unschedulable pod: exactly the re-check's
+       report (Failed), and nothing for a pod that was scheduled or deleted in
+       time or whose watcher was cancelled *)
+    forallb (fun id => list_eqb status_eqb (statuses_for id (skipn (rc_tick c) evs))
+                                (late_for id (rc_late c)))
+            (case_ids c).
 
 Definition check_reporter (c : rcase) : nat := code (reporter_agree c) (reporter_monitor c).
